@@ -89,6 +89,15 @@ def cases(tier, seed):
         if gw:
             sp["gw"] = gw
         c = {"spec": sp}
+        if i % 10 == 1:
+            # the user's Soil object has been used before, by a model of a shallow-rooted crop
+            c["pre_use"] = gen.pick(rng, ["Tomato", "Potato", "DryBean", "Quinoa"])
+        if i % 40 == 13 and s["type"] == "custom":
+            # the corner of the texture triangle where the pedotransfer function stops working
+            for L in s["layers"][:1]:
+                for k in ("thWP", "thFC", "thS", "Ksat"):
+                    L.pop(k, None)
+                L.update(sand=float(rng.integers(38, 44)), clay=float(rng.integers(56, 61)), om=float(gen.pick(rng, [5.0, 6.0, 7.0, 8.0])))
         if i % 10 == 7:
             # net irrigation refills the root zone on the planting day (= first day of the run)
             sp["irr"] = {"method": 4, "kw": {"NetIrrSMT": float(gen.pick(rng, [70, 80, 95]))}, "schedule": None}
@@ -154,6 +163,12 @@ def run_case(case):
     try:
         kw = S.build(spec)
         res.kw = kw
+        if case.get("pre_use"):
+            from aquacrop import AquaCropModel, Crop
+            first = dict(kw, crop=Crop(case["pre_use"], planting_date="05/01"))
+            with np.errstate(all="ignore"):
+                AquaCropModel(**first)._initialize()
+            acc.cov["soil_objects_used_before"] += 1
         model = S.make_model(spec, kw)
         I.watchdog_arm(400_000)
         with np.errstate(all="ignore"):
@@ -168,6 +183,12 @@ def run_case(case):
         res.status = "rejected" if sim.permitted_rejection(res.exc) else "error"
     finally:
         I.watchdog_disarm()
+    if res.status == "error" and res.exc[2][1] == "calculate_soil_hydraulic_properties":
+        # the pedotransfer function refuses the texture (outside its range of validity): the model
+        # never runs on such a soil, which is all C18 speaks about
+        acc.cov["textures_rejected_by_pedotransfer"] += 1
+        res.status = "rejected"
+        return base.finish(spec, res, acc, False)
     dz0, lay, thick = expected_layers(spec)
     zmax = float(common.crop_catalogue()[spec["crop"]["name"]]["Zmax"])
     feats = {"profile_cannot_reach_max_root_depth": gen.reachable_depth(dz0) < zmax + 0.1}
